@@ -848,6 +848,11 @@ pub fn alphabet(ty: VariantType, codec: Codec, large: bool) -> Vec<LV> {
                     out.push(lv(&format!("{}:{}", ty, v), rbx_types::EnumItem { ty: ty.to_owned(), value: v }));
                 }
             }
+            // the enum's name is a free-form string: qualified, dotted, padded, cased, long
+            let long = "LongEnumName".repeat(100);
+            for ty in ["Enum.Material", "Enum.", "Enum", "enum.Material", "Enum.Enum.KeyCode", "Material.Plastic", ".Material", "Material.", " Material ", "material", "MATERIAL", "a\u{0}b", "a\nb", long.as_str()] {
+                out.push(lv(&format!("name:{}", ty.chars().take(24).collect::<String>().escape_default()), rbx_types::EnumItem { ty: ty.to_owned(), value: 3 }));
+            }
         }
         VariantType::Attributes => {
             out.push(lv("empty", Attributes::new()));
